@@ -226,3 +226,17 @@ def run(ctx, res):
         run_case(ctx, res, gen_case(rng, stream, depth))
         i += 1
     res.count("sampled", i)
+
+CLAIM = {
+    "text": "Lean theorems over R for every kernel expression tree, active-dims form and point: closed forms of the six "
+            "kernels, symmetry (induction over the tree), values of stationary kernels in (0,1], self-covariance bounds, "
+            "pointwise algebra of Add/Mul/Pow nodes, time covariance = state x time product with the selected columns, "
+            "inactive dimensions irrelevant, diag = diagonal, PSD for Linear and closure under +, +c, *c, column selection. "
+            "Tied to /repo by running cov(x,y)/diag on the implementation and on the model's executable definitions and by "
+            "an independent interval closed-form oracle.",
+    "note": "Gram PSD of the five stationary kernels (Bochner/Schoenberg) and of products/powers is not in Mathlib: named "
+            "hypothesis PSDKernel, exercised numerically only. Float64 rounding/underflow modelled away (k>0 checked as k>=0). "
+            "Correspondence is sampled differential testing.",
+    "technique": "Lean 4 proof (structural induction over kernel syntax, real analysis of radial profiles) + differential "
+                 "correspondence with interval oracle",
+}
